@@ -111,25 +111,33 @@ def build_point(iid, fn, u, v, out, meta):
     if fn == "log" and u == 0 and v == 0:
         return None
     re_t, im_t, conds = ref_parts(fn, u, v)
-    atoms = [tuple(c) for c in conds]; negs = []
+    atoms = [tuple(c) for c in conds]; negs = []; labels = []
     for part, t, box in (("re", re_t, out[0]), ("im", im_t, out[1])):
         if t is None or box is None: continue
         lo, hi = box
         if lo in ("nan", "+inf") or hi in ("nan", "-inf"):
             return "bad"
         if isinstance(lo, Fraction):
-            atoms.append((Const(lo), "<=", t)); negs.append([tuple(c) for c in conds] + [(t, "<", Const(lo))])
+            atoms.append((Const(lo), "<=", t)); negs.append([tuple(c) for c in conds] + [(t, "<", Const(lo))]); labels.append(part + "<lo")
         if isinstance(hi, Fraction):
-            atoms.append((t, "<=", Const(hi))); negs.append([tuple(c) for c in conds] + [(Const(hi), "<", t)])
+            atoms.append((t, "<=", Const(hi))); negs.append([tuple(c) for c in conds] + [(Const(hi), "<", t)]); labels.append(part + ">hi")
     if not atoms:
         return None
     try:
-        ins = atoms_instance(iid, atoms, negs, meta=meta, params={"margin": 40})
+        ins = atoms_instance(iid, atoms, negs, meta=dict(meta, neg_labels=labels), params={"margin": 40})
     except (cert.EstimateError, ZeroDivisionError, ValueError):
         return None
     if "estimate_error" in ins.meta:
         return None
     return ins
+
+
+def failed_label(v):
+    """which inequality was refuted: parsed from the ladder step 'negK@P' and the instance's neg_labels"""
+    import re
+    m = re.match(r"neg(\d+)@", str(v.get("step", "")))
+    labs = v.get("neg_labels") or []
+    return labs[int(m.group(1))] if m and int(m.group(1)) < len(labs) else "??"
 
 
 def excess_class(ctx_prec, fn, u, v, out):
@@ -208,6 +216,7 @@ def run_elementary(rep, tier_, rng, budget=None):
             rep.violation("C15 %s: certified containment failure at a member point of the rectangle (%s point, regime %s, prec %d)"
                           % (call["fn"], kind, call["regime"], call["prec"]),
                           dict(call, point=[dy_pair(u), dy_pair(vv)], point_kind=kind, excess_class=exc, step=v["step"],
+                               failed=failed_label(v), failed_part=failed_label(v)[:2],
                                coq_replay=cert.replay_text(res, iid), clause="containment"))
         elif v["verdict"] == "inconclusive":
             inconc.append({"fn": call["fn"], "regime": call["regime"], "prec": call["prec"], "kind": kind, "note": v["note"][:60]})
